@@ -340,4 +340,118 @@ pub fn v_set_state(reg: &mut crate::semantic::TypeRegistry, p: &crate::grammar::
 pub assume_specification [<crate::semantic::types::ItemState as Clone>::clone] (p: &crate::semantic::types::ItemState) -> (r: crate::semantic::types::ItemState)
     ensures r == *p;
 
+
+// ---------- verified R-std helpers used by TypeRegistry::resolve_string ----------
+pub open spec fn last_true(ps: Seq<bool>, k: int) -> Option<int>
+    decreases k
+{
+    if k <= 0 { None } else if ps[k - 1] { Some(k - 1) } else { last_true(ps, k - 1) }
+}
+/// elements of s (as references) whose mark equals `want`, among the first k, in order
+pub open spec fn sel<'a, T>(s: Seq<T>, ps: Seq<bool>, want: bool, k: int) -> Seq<&'a T>
+    decreases k
+{
+    if k <= 0 { Seq::empty() } else if ps[k - 1] == want { sel(s, ps, want, k - 1).push(&s[k - 1]) } else { sel(s, ps, want, k - 1) }
+}
+pub fn v_partition<'a, T, F: Fn(&&'a T) -> bool>(s: &'a [T], f: F, Ghost(ps): Ghost<Seq<bool>>) -> (r: (Vec<&'a T>, Vec<&'a T>))
+    requires
+        ps.len() == s@.len(),
+        forall|x: &&'a T| #[trigger] f.requires((x,)),
+        forall|i: int, x: &&'a T, b: bool| 0 <= i < s@.len() && **x == #[trigger] s@[i] && #[trigger] f.ensures((x,), b) ==> b == ps[i],
+    ensures
+        r.0@ == sel(s@, ps, true, s@.len() as int),
+        r.1@ == sel(s@, ps, false, s@.len() as int),
+{
+    let mut yes: Vec<&'a T> = Vec::new();
+    let mut no: Vec<&'a T> = Vec::new();
+    let mut i: usize = 0;
+    while i < s.len()
+        invariant
+            i <= s.len(), ps.len() == s@.len(),
+            yes@ == sel(s@, ps, true, i as int),
+            no@ == sel(s@, ps, false, i as int),
+            forall|x: &&'a T| #[trigger] f.requires((x,)),
+            forall|k: int, x: &&'a T, b: bool| 0 <= k < s@.len() && **x == #[trigger] s@[k] && #[trigger] f.ensures((x,), b) ==> b == ps[k],
+        decreases s.len() - i,
+    {
+        let x = &s[i];
+        if f(&x) { yes.push(x); } else { no.push(x); }
+        i += 1;
+    }
+    (yes, no)
+}
+pub fn v_rfind<T: Copy, G: Fn(&T) -> bool>(v: Vec<T>, g: G, Ghost(qs): Ghost<Seq<bool>>) -> (r: Option<T>)
+    requires
+        qs.len() == v@.len(),
+        forall|x: &T| #[trigger] g.requires((x,)),
+        forall|i: int, x: &T, b: bool| 0 <= i < v@.len() && *x == #[trigger] v@[i] && #[trigger] g.ensures((x,), b) ==> b == qs[i],
+    ensures
+        match last_true(qs, qs.len() as int) { Some(i) => 0 <= i < v@.len() && r == Some(v@[i]), None => r is None },
+{
+    let mut i: usize = v.len();
+    while i > 0
+        invariant
+            i <= v.len(), qs.len() == v@.len(),
+            last_true(qs, qs.len() as int) == last_true(qs, i as int),
+            forall|x: &T| #[trigger] g.requires((x,)),
+            forall|k: int, x: &T, b: bool| 0 <= k < v@.len() && *x == #[trigger] v@[k] && #[trigger] g.ensures((x,), b) ==> b == qs[k],
+        decreases i,
+    {
+        i -= 1;
+        let x = v[i];
+        if g(&x) { return Some(x); }
+    }
+    None
+}
+pub fn v_once_chain<'a, T>(first: &'a T, rest: &Vec<&'a T>) -> (r: Vec<&'a T>)
+    ensures r@ == seq![first] + rest@
+{
+    let mut out: Vec<&'a T> = Vec::new();
+    out.push(first);
+    let mut i: usize = 0;
+    while i < rest.len()
+        invariant i <= rest.len(), out@ == seq![first] + rest@.take(i as int),
+        decreases rest.len() - i,
+    {
+        out.push(rest[i]);
+        proof { assert(rest@.take(i as int + 1) == rest@.take(i as int).push(rest@[i as int])); }
+        i += 1;
+    }
+    proof { assert(rest@.take(rest@.len() as int) == rest@); }
+    out
+}
+pub fn v_map_find_owned<T: Copy, U, F: Fn(T) -> U, G: Fn(&U) -> bool>(s: &[T], f: F, g: G, Ghost(us): Ghost<Seq<U>>, Ghost(ps): Ghost<Seq<bool>>) -> (r: Option<U>)
+    requires
+        us.len() == s@.len(), ps.len() == s@.len(),
+        forall|i: int| 0 <= i < s@.len() ==> f.requires((#[trigger] s@[i],)),
+        forall|i: int, o: U| 0 <= i < s@.len() && #[trigger] f.ensures((s@[i],), o) ==> o == us[i],
+        forall|u: &U| #[trigger] g.requires((u,)),
+        forall|i: int, u: &U, b: bool| 0 <= i < s@.len() && *u == #[trigger] us[i] && #[trigger] g.ensures((u,), b) ==> b == ps[i],
+    ensures
+        match first_true(ps, ps.len() as int) { Some(i) => 0 <= i < ps.len() && r == Some(us[i]), None => r is None },
+{
+    let mut i: usize = 0;
+    while i < s.len()
+        invariant
+            i <= s.len(), us.len() == s@.len(), ps.len() == s@.len(),
+            first_true(ps, i as int) is None,
+            forall|k: int| 0 <= k < s@.len() ==> f.requires((#[trigger] s@[k],)),
+            forall|k: int, o: U| 0 <= k < s@.len() && #[trigger] f.ensures((s@[k],), o) ==> o == us[k],
+            forall|u: &U| #[trigger] g.requires((u,)),
+            forall|k: int, u: &U, b: bool| 0 <= k < s@.len() && *u == #[trigger] us[k] && #[trigger] g.ensures((u,), b) ==> b == ps[k],
+        decreases s.len() - i,
+    {
+        let u = f(s[i]);
+        if g(&u) {
+            proof { lemma_first_true_stable(ps, i as int + 1, ps.len() as int); }
+            return Some(u);
+        }
+        i += 1;
+    }
+    None
+}
+
+pub assume_specification<T, F: FnOnce() -> Option<T>> [Option::<T>::or_else] (a: Option<T>, f: F) -> (r: Option<T>)
+    requires a is None ==> f.requires(()),
+    ensures a is Some ==> r == a, a is None ==> f.ensures((), r);
 }
